@@ -87,7 +87,7 @@ def unit_golden(a):
 def replay(case, stats):
     if case["sub"] == "golden":
         return pc.replay_golden(case, proj_c07, WHAT)
-    if case["sub"] == "text":
+    if case["sub"] in ("text", "rawtext"):
         from . import textdocs
         return textdocs.check_text(case, stats, "C07")
     if case["sub"] == "reuse":
